@@ -1,7 +1,7 @@
 """C03 - exit -> transition -> entry ordering, event identity, frame (structural clauses)."""
 import ast
 
-from sa.cfg import cfg_of
+from sa.cfg import cfg_of, split_atoms
 from sa.program import dotted, norm, own_nodes
 from sa.util import (assignments_to, cfg_node_of, enclosing_loops, guards_at, in_handler, provenance,
                      self_calls_in, stmt_text, names_in)
@@ -204,6 +204,8 @@ def run(ctx):
     for r_ in sorted(rets, key=lambda n: n.lineno):
         ok, why = _domain_is_target_ancestor(fd, r_, tparam)
         c.ob("R7", ok, fd, f"domain-return:{norm(r_.value)[:40]}", why, r_)
+    # ---- R9 the exit set is the domain's subtree, narrowed to the target's region under a parallel domain ----
+    shared.exit_set_scope(ctx, "R9")
     # ---- R8 the exit set is scoped with separator-carrying id tests (frame: sibling regions untouched) ----
     shared.dotted_id_tests(ctx, "R8")
     # twin agreement for the pairs (C03 depends on it) is checked under C05.R1
@@ -268,3 +270,4 @@ def _domain_is_target_ancestor(fd, ret, tparam):
                    f"source': for a target outside the source's parent the domain is not an ancestor of the target, so the entry path "
                    f"(_get_path_to_state(target, stop_at=domain)) runs up to the root and re-enters active states, and the exit set misses the "
                    f"real common-ancestor subtree")
+
